@@ -8,6 +8,7 @@ mod common;
 mod framing;
 mod limits;
 mod outframe;
+mod server;
 
 pub use common::Tier;
 
@@ -59,6 +60,9 @@ fn main() {
         "cancel" => framing::run_c07(tier),
         "outframe" => outframe::run(tier),
         "limits" => limits::run(tier),
+        "server" => server::run_c08(tier),
+        "faults" => server::run_c09(tier),
+        "streaming" => server::run_c10(tier),
         "chain" => chain::run_c06(tier),
         "borrow" => chain::run_c11(tier),
         _ => usage(),
@@ -73,6 +77,7 @@ fn replay(v: &Value, path: &str) -> i32 {
         "C02" => outframe::replay(v),
         "C06" | "C11" => chain::replay(v),
         "C17" => limits::replay(v),
+        "C08" | "C09" | "C10" => server::replay(v),
         _ => {
             eprintln!("MACHINERY: no replay handler for property `{prop}`");
             return 2;
